@@ -952,6 +952,16 @@ func RunC07(run *vk.Run) {
 		}
 	}
 
+	// every digest algorithm identifier around the ones the TPM library defines, alone and in a list
+	for alg := 0; alg <= 0x30; alg++ {
+		d := append([]byte{byte(alg), byte(alg >> 8)}, bytes.Repeat([]byte{0x11}, 64)...)
+		add(rpCase{Target: "reader:TaggedDigest", Data: d, Key: "algid"})
+		add(rpCase{Target: "reader:Digests", Data: append([]byte{1, 0, 0, 0}, d...), Key: "algid"})
+	}
+	for _, alg := range []int{0xff, 0x100, 0x7fff, 0x8000, 0xfffe, 0xffff} {
+		d := append([]byte{byte(alg), byte(alg >> 8)}, bytes.Repeat([]byte{0x11}, 64)...)
+		add(rpCase{Target: "reader:TaggedDigest", Data: d, Key: "algid"})
+	}
 	raws := make([]json.RawMessage, len(cases))
 	for i, c := range cases {
 		raws[i], _ = json.Marshal(c)
